@@ -24,6 +24,7 @@ import (
 type c12Case struct {
 	N       int      `json:"n"`                // requests
 	Bodies  []int    `json:"bodies"`           // request body sizes
+	Modes   []int    `json:"modes,omitempty"`  // per request: 0 buffered body, 1 SetBodyStream with a declared length, 2 SetBodyStream of unknown length (bodies over 65535 octets are still waiting for window when the server's stream arrives)
 	RespLen []int    `json:"resplen"`          // response body sizes
 	Splits  []int    `json:"splits,omitempty"` // response header block cuts
 	Muts    []c17Mut `json:"muts,omitempty"`   // frame-wise mutations of the recorded response stream
@@ -200,6 +201,9 @@ func c12Reference(b []byte) (map[uint32]*c12Model, bool) {
 // c12DialInProgress: some goroutine of the client is inside a dial (not merely waiting for the client's lock).
 func c12DialInProgress() bool {
 	for _, g := range peer.LibraryGoroutines() {
+		if i := strings.Index(g, "\ncreated by "); i >= 0 {
+			g = g[:i] // the loops of a connection are "created by ...(*Conn).Handshake": not a frame
+		}
 		if strings.Contains(g, "http2.(*Dialer).Dial") || strings.Contains(g, "http2.(*Conn).Handshake") || strings.Contains(g, "http2.(*Dialer).tryDial") {
 			return true
 		}
@@ -272,7 +276,11 @@ func c12Run(c c12Case) Outcome {
 	t0 := time.Now()
 	for i := 0; i < c.N; i++ {
 		tag := fmt.Sprintf("t%d", i)
-		calls[i] = env.Do(speer.ReqSpec{Tag: tag, Method: "POST", Path: "/" + tag, BodyLen: c.Bodies[i]})
+		mode := 0
+		if i < len(c.Modes) && c.Bodies[i] > 0 {
+			mode = c.Modes[i]
+		}
+		calls[i] = env.Do(speer.ReqSpec{Tag: tag, Method: "POST", Path: "/" + tag, BodyLen: c.Bodies[i], Mode: mode, Chunks: []int{3000}})
 	}
 	// give the requests the time to arrive (or to fail); not a correctness signal
 	_, _ = env.Quiesce()
@@ -544,7 +552,7 @@ func c12Run(c c12Case) Outcome {
 		left := ""
 		for _, g := range gs {
 			if strings.Contains(g, "http2.(*Conn).readLoop") || strings.Contains(g, "http2.(*Conn).writeLoop") || strings.Contains(g, "http2.(*Conn).runWriteLoop") {
-				left = firstLines(g, 10)
+				left = firstLines(g, 22)
 			}
 		}
 		if left == "" {
@@ -565,6 +573,7 @@ func c12Gen(t *rapid.T) c12Case {
 	for i := 0; i < n; i++ {
 		c.Bodies = append(c.Bodies, rapid.SampledFrom([]int{0, 0, 10, 3000, 70000}).Draw(t, "body"))
 		c.RespLen = append(c.RespLen, rapid.SampledFrom([]int{0, 5, 1000, 20000}).Draw(t, "resplen"))
+		c.Modes = append(c.Modes, rapid.SampledFrom([]int{0, 0, 1, 2}).Draw(t, "mode"))
 	}
 	if rapid.Bool().Draw(t, "split") {
 		c.Splits = []int{rapid.IntRange(1, 80).Draw(t, "splitat")}
